@@ -1098,6 +1098,9 @@ class Walker:
                 la, ha = self.P.lo(a.lin), self.P.hi(a.lin)
                 if la is not None and la >= 0:
                     rng = (0, ha)
+                    if b.lin.is_const() and isinstance(b.lin.k, int) and b.lin.k >= 0 and ha is not None:
+                        rng = ((la >> b.lin.k, ha >> b.lin.k) if isinstance(op, ast.RShift) else
+                               ((la // b.lin.k, ha // b.lin.k) if b.lin.k > 0 else rng))
             elif isinstance(op, ast.Mult):
                 la, ha, lb, hb = self.P.lo(a.lin), self.P.hi(a.lin), self.P.lo(b.lin), self.P.hi(b.lin)
                 if None not in (la, lb) and la >= 0 and lb >= 0:
